@@ -1,8 +1,370 @@
 package vval
 
-import "verif/rig"
+import (
+	"bytes"
+	"context"
+	"encoding/hex"
+	"fmt"
+	"sort"
+	"strings"
+	"unicode/utf8"
+
+	gms "github.com/dolthub/go-mysql-server"
+	"github.com/dolthub/go-mysql-server/sql"
+
+	dsqle "github.com/dolthub/dolt/go/libraries/doltcore/sqle"
+	"github.com/dolthub/dolt/go/libraries/doltcore/table/editor"
+
+	"verif/rig"
+)
+
+// C16 (SQL level) — the same TEXT / BLOB / JSON values are written through SQL into two tables whose target_row_size
+// (a supported table option) forces them into different stored forms: rows of `c16_small` (target 256) keep only short
+// values inline, rows of `c16_big` (target 60000) keep values up to ~60 KB inline. Read-back, cross-form equality joins,
+// ORDER BY, DISTINCT and GROUP BY must not depend on the form.
+//
+// In-process engine (dolt's own sqle test helpers over an in-memory DoltDB); no server, no network.
+
+type c16SQLRun struct {
+	c      *rig.Ctx
+	lim    *limiter
+	engine *gms.Engine
+	ctx    *sql.Context
+}
+
+func (x *c16SQLRun) exec(q string) []sql.Row {
+	rows, err := dsqle.QueryRows(x.ctx, x.engine, q)
+	if err != nil {
+		short := q
+		if len(short) > 200 {
+			short = short[:200] + "..."
+		}
+		rig.Must(fmt.Errorf("sql %q: %w", short, err))
+	}
+	return rows
+}
+
+// query runs one of the checking queries; an SQL error on them is an observation about dolt, not an infrastructure failure.
+func (x *c16SQLRun) query(check, typ, q string) ([]sql.Row, bool) {
+	rows, err := dsqle.QueryRows(x.ctx, x.engine, q)
+	if err != nil {
+		x.lim.Violation("c16/sql/"+check+"/"+typ+"/error", "the query fails on a table holding out-of-band values: "+err.Error(), map[string]any{"query": q})
+		return nil, false
+	}
+	return rows, true
+}
+
+func unwrapSQL(ctx context.Context, v any) ([]byte, error) {
+	u, err := sql.UnwrapAny(ctx, v)
+	if err != nil {
+		return nil, err
+	}
+	switch t := u.(type) {
+	case nil:
+		return nil, nil
+	case []byte:
+		return t, nil
+	case string:
+		return []byte(t), nil
+	}
+	return nil, fmt.Errorf("unexpected column type %T", u)
+}
 
 func c16SQL(c *rig.Ctx) {
-	c.Distinct("stub1")
-	c.Distinct("stub2")
+	c.Rule("SQL stage: ~70 TEXT and ~70 BLOB values (sizes 0..60000 around 250, 2047, 4000, 8000, 12000; families of values that share a prefix up to / next to a chunk boundary, prefixes cut at a chunk boundary, " +
+		"multi-byte runes straddling a boundary) and ~40 JSON documents are inserted into two tables with target_row_size 256 and 60000, so that each value exists inline and out of band; checks: read-back, " +
+		"a.v = b.v across the two tables, ORDER BY v in both tables vs the model order, COUNT(DISTINCT) and GROUP BY over the union. distinct = (type, size class, family)")
+	c.Assume("default collation utf8mb4_0900_bin orders valid UTF-8 strings bytewise")
+	dEnv := dsqle.CreateTestEnvWithName("c16sql")
+	db, err := dsqle.NewDatabase(bg, "dolt", dEnv.DbData(bg), editor.Options{})
+	rig.Must(err)
+	engine, sqlCtx, err := dsqle.NewTestEngine(dEnv, bg, db)
+	rig.Must(err)
+	x := &c16SQLRun{c: c, lim: newLimiter(c, "c16.further_violations_same_key"), engine: engine, ctx: sqlCtx}
+
+	for _, typ := range []string{"LONGTEXT", "LONGBLOB"} {
+		x.textBlob(typ)
+	}
+	x.jsonColumn()
+	c.Require(true, "")
 }
+
+func (x *c16SQLRun) textBlob(typ string) {
+	c := x.c
+	isText := typ == "LONGTEXT"
+	kind := "random"
+	if isText {
+		kind = "multibyte"
+	}
+	r := c.SubRand("c16/sql/"+typ, 0)
+	// families: a base value, its prefixes cut at/next to chunk boundaries, and copies mutated at/next to them
+	type val struct {
+		b      []byte
+		family string
+	}
+	var vals []val
+	add := func(b []byte, fam string) { vals = append(vals, val{b, fam}) }
+	for _, n := range []int{0, 1, 20, 240, 249, 250, 251, 252, 2040, 2047, 2048, 5000, 59000} {
+		add(c16Gen(r, kind, n), "single")
+	}
+	if isText {
+		add([]byte("a"), "single")
+		add([]byte("A"), "single")
+		add([]byte("é"), "single")
+	}
+	for fi, n := range []int{c16Chunk + 2, 2*c16Chunk + 1, 3 * c16Chunk, 12003} {
+		base := c16Gen(c.SubRand("c16/sql/fam/"+typ, fi), kind, n)
+		add(base, "family-base")
+		for _, p := range []int{c16Chunk - 1, c16Chunk, c16Chunk + 1, 2 * c16Chunk, n - 1} {
+			if p > 0 && p < n {
+				pre := base[:p]
+				if !isText || validUTF8(pre) {
+					add(pre, "family-prefix-"+offClass(p))
+				}
+				if m, at := mutateAt(base, p, isText); m != nil {
+					add(m, "family-mutation-"+offClass(at))
+				}
+			}
+		}
+	}
+	// duplicates (for DISTINCT / GROUP BY)
+	nDup := 0
+	for i := 0; i < len(vals) && nDup < 8; i += 5 {
+		add(vals[i].b, "duplicate")
+		nDup++
+	}
+	small, big := "c16_small_"+strings.ToLower(typ), "c16_big_"+strings.ToLower(typ)
+	x.exec(fmt.Sprintf("CREATE TABLE %s (id INT PRIMARY KEY, v %s) target_row_size=256", small, typ))
+	x.exec(fmt.Sprintf("CREATE TABLE %s (id INT PRIMARY KEY, v %s) target_row_size=60000", big, typ))
+	lit := func(b []byte) string {
+		if isText {
+			return "CONVERT(UNHEX('" + hex.EncodeToString(b) + "') USING utf8mb4)"
+		}
+		return "UNHEX('" + hex.EncodeToString(b) + "')"
+	}
+	for i, v := range vals {
+		c.Case(fmt.Sprintf("c16/sql/%s/insert/%d", typ, i), map[string]any{"size": len(v.b), "family": v.family})
+		x.exec(fmt.Sprintf("INSERT INTO %s VALUES (%d, %s)", small, i, lit(v.b)))
+		x.exec(fmt.Sprintf("INSERT INTO %s VALUES (%d, %s)", big, i, lit(v.b)))
+		c.Distinct(fmt.Sprintf("sql/%s/%s/%d", typ, v.family, len(v.b)/1000))
+	}
+	c.Count("c16.sql_values_written", 2*len(vals))
+
+	// read back
+	for _, tbl := range []string{small, big} {
+		c.Case("c16/sql/"+typ+"/readback/"+tbl, nil)
+		rows := x.exec(fmt.Sprintf("SELECT id, v FROM %s ORDER BY id", tbl))
+		if len(rows) != len(vals) {
+			x.lim.Violation("c16/sql/readback/"+typ+"/row-count", "rows are missing", map[string]any{"table": tbl, "got": len(rows), "want": len(vals)})
+			continue
+		}
+		for i, row := range rows {
+			got, err := unwrapSQL(x.ctx, row[1])
+			c.Count("c16.sql_readbacks", 1)
+			if err != nil || !bytes.Equal(got, vals[i].b) {
+				x.lim.Violation("c16/sql/readback/"+typ, "a value written through SQL does not read back byte for byte",
+					map[string]any{"table": tbl, "id": i, "size": len(vals[i].b), "family": vals[i].family, "err": fmt.Sprint(err), "got": clip(got)})
+			}
+		}
+	}
+	// how many were actually stored in two different forms (inline in one table, out of band in the other)?
+	twoForms := 0
+	for _, v := range vals {
+		if len(v.b)+1 > 256 && len(v.b)+1 <= 60000 { // the value tuple holds only v (id is the key)
+			twoForms++
+		}
+	}
+	c.Count("c16.sql_values_in_both_forms", twoForms)
+
+	// equality across forms
+	c.Case("c16/sql/"+typ+"/join", nil)
+	rows, ok := x.query("equality", typ, fmt.Sprintf("SELECT a.id, b.id FROM %s a JOIN %s b ON a.v = b.v ORDER BY a.id, b.id", small, big))
+	gotPairs := map[[2]int]bool{}
+	for _, row := range rows {
+		gotPairs[[2]int{toInt(row[0]), toInt(row[1])}] = true
+	}
+	for i := range vals {
+		for j := range vals {
+			want := bytes.Equal(vals[i].b, vals[j].b)
+			if ok && want != gotPairs[[2]int{i, j}] {
+				x.lim.Violation("c16/sql/equality/"+typ, "a.v = b.v between the inline and the out-of-band copy disagrees with the equality of the values",
+					map[string]any{"small_id": i, "big_id": j, "want": want, "size_a": len(vals[i].b), "size_b": len(vals[j].b), "family_a": vals[i].family, "family_b": vals[j].family})
+			}
+		}
+	}
+	c.Count("c16.sql_equality_pairs", len(vals)*len(vals))
+
+	// ORDER BY
+	model := make([]int, len(vals))
+	for i := range model {
+		model[i] = i
+	}
+	sort.SliceStable(model, func(a, b int) bool {
+		if c := bytes.Compare(vals[model[a]].b, vals[model[b]].b); c != 0 {
+			return c < 0
+		}
+		return model[a] < model[b]
+	})
+	for _, tbl := range []string{small, big} {
+		c.Case("c16/sql/"+typ+"/orderby/"+tbl, nil)
+		rows, ok := x.query("orderby", typ, fmt.Sprintf("SELECT id FROM %s ORDER BY v, id", tbl))
+		if !ok {
+			continue
+		}
+		var got []int
+		for _, row := range rows {
+			got = append(got, toInt(row[0]))
+		}
+		c.Count("c16.sql_orderby_rows", len(got))
+		if fmt.Sprint(got) != fmt.Sprint(model) {
+			first := 0
+			for first < len(got) && first < len(model) && got[first] == model[first] {
+				first++
+			}
+			w := map[string]any{"table": tbl, "first_divergence_at": first}
+			if first < len(got) && first < len(model) {
+				w["got_id"], w["want_id"] = got[first], model[first]
+				w["got_size"], w["want_size"] = len(vals[got[first]].b), len(vals[model[first]].b)
+				w["got_family"], w["want_family"] = vals[got[first]].family, vals[model[first]].family
+			}
+			x.lim.Violation("c16/sql/orderby/"+typ, "ORDER BY over the column disagrees with the order of the values", w)
+		}
+	}
+	// DISTINCT / GROUP BY over the union of both forms
+	c.Case("c16/sql/"+typ+"/distinct", nil)
+	distinct := map[string]int{}
+	for _, v := range vals {
+		distinct[string(v.b)]++
+	}
+	// per table first: a failure (or a wrong count) that occurs for one stored form only is a form dependence; a query that
+	// fails identically on both tables is an engine limitation unrelated to the stored form (counted, not reported)
+	type outcome struct {
+		n   int
+		err string
+	}
+	var oc [2]outcome
+	for k, tbl := range []string{small, big} {
+		rows, err := dsqle.QueryRows(x.ctx, x.engine, fmt.Sprintf("SELECT COUNT(DISTINCT v) FROM %s", tbl))
+		if err != nil {
+			oc[k] = outcome{-1, err.Error()}
+		} else {
+			oc[k] = outcome{toInt(rows[0][0]), ""}
+		}
+	}
+	switch {
+	case oc[0].err != "" && oc[1].err != "":
+		c.Count("c16.sql_count_distinct_fails_for_both_forms."+typ, 1)
+	case oc[0].err != "" || oc[1].err != "":
+		x.lim.Violation("c16/sql/distinct/"+typ+"/error-in-one-form-only", "COUNT(DISTINCT v) fails on the table whose values are out of band and succeeds on the table holding the same values inline (or vice versa)",
+			map[string]any{"small_table": small + " (target_row_size=256, values out of band)", "big_table": big + " (target_row_size=60000, values inline)", "err_small": oc[0].err, "err_big": oc[1].err, "n_small": oc[0].n, "n_big": oc[1].n})
+	case oc[0].n != len(distinct) || oc[1].n != len(distinct):
+		x.lim.Violation("c16/sql/distinct/"+typ, "COUNT(DISTINCT v) disagrees with the number of distinct values", map[string]any{"n_small": oc[0].n, "n_big": oc[1].n, "want": len(distinct)})
+	}
+	if oc[0].err != "" || oc[1].err != "" {
+		// the union query would only repeat the same failure; use the DISTINCT subquery form instead
+		rows, ok = x.query("distinct-subquery", typ, fmt.Sprintf("SELECT COUNT(*) FROM (SELECT v FROM %s UNION SELECT v FROM %s) u", small, big))
+		if ok {
+			if got := toInt(rows[0][0]); got != len(distinct) {
+				x.lim.Violation("c16/sql/distinct/"+typ, "UNION (distinct) over inline and out-of-band copies disagrees with the number of distinct values", map[string]any{"got": got, "want": len(distinct)})
+			}
+		}
+	} else {
+		rows, ok = x.query("distinct", typ, fmt.Sprintf("SELECT COUNT(DISTINCT v) FROM (SELECT v FROM %s UNION ALL SELECT v FROM %s) u", small, big))
+		if !ok {
+		} else if got := toInt(rows[0][0]); got != len(distinct) {
+			x.lim.Violation("c16/sql/distinct/"+typ, "COUNT(DISTINCT v) over inline and out-of-band copies disagrees with the number of distinct values", map[string]any{"got": got, "want": len(distinct)})
+		}
+	}
+	rows, ok = x.query("groupby", typ, fmt.Sprintf("SELECT MIN(id), COUNT(*) FROM (SELECT id, v FROM %s UNION ALL SELECT id, v FROM %s) u GROUP BY v", small, big))
+	if ok && len(rows) != len(distinct) {
+		x.lim.Violation("c16/sql/groupby/"+typ, "GROUP BY v over inline and out-of-band copies produces a wrong number of groups", map[string]any{"got": len(rows), "want": len(distinct)})
+	}
+	for _, row := range rows {
+		id, n := toInt(row[0]), toInt(row[1])
+		if id < 0 || id >= len(vals) || n != 2*distinct[string(vals[id].b)] {
+			x.lim.Violation("c16/sql/groupby/"+typ, "GROUP BY v puts the inline and the out-of-band copy of a value in different groups", map[string]any{"min_id": id, "count": n})
+		}
+	}
+	c.Count("c16.sql_distinct_values", len(distinct))
+}
+
+func (x *c16SQLRun) jsonColumn() {
+	c := x.c
+	x.exec("CREATE TABLE c16_small_json (id INT PRIMARY KEY, v JSON) target_row_size=256")
+	x.exec("CREATE TABLE c16_big_json (id INT PRIMARY KEY, v JSON) target_row_size=60000")
+	n := c.Pick(40, 400)
+	var docs []any
+	for i := 0; i < n; i++ {
+		r := c.SubRand("c16/sql/json", i)
+		g := &jgen{r: r, escKeys: true}
+		var v any
+		switch i % 4 {
+		case 0:
+			v = g.value(4)
+		case 1:
+			v = g.big(150 + r.Intn(250))
+		case 2:
+			v = g.big(1800 + r.Intn(500))
+		default:
+			v = g.big(3500 + r.Intn(20000))
+		}
+		v = jNorm(v)
+		docs = append(docs, v)
+		buf := jMarshal(v)
+		c.Case(fmt.Sprintf("c16/sql/json/insert/%d", i), map[string]any{"bytes": len(buf)})
+		lit := "CAST(CONVERT(UNHEX('" + hex.EncodeToString(buf) + "') USING utf8mb4) AS JSON)"
+		x.exec(fmt.Sprintf("INSERT INTO c16_small_json VALUES (%d, %s)", i, lit))
+		x.exec(fmt.Sprintf("INSERT INTO c16_big_json VALUES (%d, %s)", i, lit))
+		c.Distinct(fmt.Sprintf("sql/json/%d/%d", i%4, len(buf)/1000))
+	}
+	for _, tbl := range []string{"c16_small_json", "c16_big_json"} {
+		c.Case("c16/sql/json/readback/"+tbl, nil)
+		rows := x.exec("SELECT id, v FROM " + tbl + " ORDER BY id")
+		for i, row := range rows {
+			var got any
+			var err error
+			w, ok := row[1].(sql.JSONWrapper)
+			if !ok {
+				err = fmt.Errorf("column is %T", row[1])
+			} else {
+				got, err = w.ToInterface(x.ctx)
+			}
+			c.Count("c16.sql_readbacks", 1)
+			if err != nil || !jEqual(got, docs[i]) {
+				x.lim.Violation("c16/sql/readback/JSON", "a JSON document written through SQL does not read back JSON-equal",
+					map[string]any{"table": tbl, "id": i, "err": fmt.Sprint(err), "written": clipS(string(jMarshal(docs[i]))), "read": clipS(string(jMarshalSafe(got)))})
+			}
+		}
+	}
+	c.Case("c16/sql/json/join", nil)
+	rows, ok := x.query("equality", "JSON", "SELECT COUNT(*) FROM c16_small_json a JOIN c16_big_json b ON a.id = b.id AND a.v = b.v")
+	if !ok {
+	} else if got := toInt(rows[0][0]); got != len(docs) {
+		x.lim.Violation("c16/sql/equality/JSON", "a JSON document does not compare equal to its copy stored in the other form", map[string]any{"equal_pairs": got, "want": len(docs)})
+	}
+	c.Count("c16.sql_json_docs", len(docs))
+}
+
+func toInt(v any) int {
+	switch t := v.(type) {
+	case int:
+		return t
+	case int8:
+		return int(t)
+	case int16:
+		return int(t)
+	case int32:
+		return int(t)
+	case int64:
+		return int(t)
+	case uint32:
+		return int(t)
+	case uint64:
+		return int(t)
+	}
+	return -1
+}
+
+func validUTF8(b []byte) bool { return utf8Valid(b) }
+
+func utf8Valid(b []byte) bool { return utf8.Valid(b) }
